@@ -40,6 +40,11 @@ DEFAULT_FEATURES: Dict[str, float] = {
     "dup_key": 0.0,  # the same response key selected twice (finding C01-F2)
     "abstract_in_mixin": 0.0,  # mixin fragment containing an abstract-typed field at any depth (finding C01-F4)
     "mixin_and_unpacked": 0.0,  # a fragment both inherited and unpacked (finding C08-F1)
+    "obj_in_abs_inline": 0.0,  # a spread / inline fragment on the object type inside an inline fragment on one of its interfaces (finding C01-F12)
+    # the two below are 0 by default and draw nothing from the PRNG while 0 (existing streams are unchanged)
+    "repeat_field": 0.0,  # the same schema field selected again under another alias in ONE selection set (`a: f b: f`)
+    "reuse_fragment": 0.0,  # a spread re-uses an existing fragment definition (same type, same flavour) instead of growing a new one:
+    #                         fragments shared by several positions / operations (every grown fragment is otherwise spread exactly once)
     "depth": 3,
 }
 
@@ -59,6 +64,7 @@ class OpsGen:
         self._in_fragment: Optional[List[Dict[str, Any]]] = None
         self._arg_choice: Dict[Any, Optional[str]] = {}
         self._no_abstract = 0  # >0 while generating the body of a fragment that will be inherited (mixin)
+        self._last_new: Optional[str] = None  # name of the fragment the last new_fragment() call created (None: re-used one)
 
     # ---- helpers
     def p(self, key: str) -> bool:
@@ -91,12 +97,13 @@ class OpsGen:
         return [{"name": name, "var": None, "lit": self.rng.choice([True, False])}]
 
     # ---- selections
-    def gen_field(self, fdef: Dict[str, Any], depth: int, used_keys: set, scope: Optional[set] = None) -> Optional[Dict[str, Any]]:
+    def gen_field(self, fdef: Dict[str, Any], depth: int, used_keys: set, scope: Optional[set] = None,
+                  force_alias: bool = False) -> Optional[Dict[str, Any]]:
         base = unwrap(fdef["type"])
         if self._no_abstract and self.kind(base) in ("interface", "union") and not self.p("abstract_in_mixin"):
             return None
         alias = None
-        if self.p("alias"):
+        if force_alias or self.p("alias"):
             alias = self.rng.choice(["a", "renamed", "myAlias", "x"]) + str(self.rng.randint(1, 99))
         key = alias or fdef["name"]
         if key in used_keys and not self.p("dup_key"):
@@ -136,6 +143,14 @@ class OpsGen:
             f = self.gen_field(fd, depth, used_keys, scope)
             if f:
                 out.append(f)
+        if self.f["repeat_field"] > 0 and out and self.p("repeat_field"):
+            # the same schema field once more, under another response key
+            again = self.rng.choice(out)
+            fd = next((x for x in fdefs if x["name"] == again["name"]), None)
+            if fd is not None:
+                f = self.gen_field(fd, depth, used_keys, scope, force_alias=True)
+                if f:
+                    out.insert(self.rng.randint(0, len(out)), f)
         if at_least_one and not out:
             for fd in fdefs:  # fall back to any scalar field
                 if not self.is_composite(unwrap(fd["type"])) and (fd["name"] not in used_keys):
@@ -145,7 +160,50 @@ class OpsGen:
                         break
         return out
 
+    def _composite_keys(self, sel: List[Dict[str, Any]], _seen: Optional[set] = None) -> set:
+        """response keys of the composite fields a selection set contributes to the position it is merged into"""
+        seen = _seen if _seen is not None else set()
+        out: set = set()
+        for s in sel:
+            if s["k"] == "field":
+                if s.get("sel"):
+                    out.add(s.get("alias") or s["name"])
+            elif s["k"] == "inline":
+                out |= self._composite_keys(s["sel"], seen)
+            elif s["name"] not in seen:
+                seen.add(s["name"])
+                fr = next((f for f in self.fragments if f["name"] == s["name"]), None)
+                if fr:
+                    out |= self._composite_keys(fr["sel"], seen)
+        return out
+
+    def reuse_fragment(self, on: str, allow_inline: bool, scope: Optional[set], mixin: bool) -> Optional[str]:
+        """an existing fragment definition of the same type and flavour that fits this position: its composite response keys
+        are new at the (merged) position, and the variables it uses are (or can be) declared by the current operation"""
+        cands = [f for f in self.fragments if f["on"] == on and f.get("_flavour") == (allow_inline, mixin)]
+        self.rng.shuffle(cands)
+        target = self._in_fragment if self._in_fragment is not None else self.vars
+        for f in cands:
+            keys = self._composite_keys(f["sel"])
+            if scope is not None and keys & scope:
+                continue
+            have = {v["name"]: v for v in target}
+            if any(v["name"] in have and have[v["name"]]["type"] != v["type"] for v in f.get("_vardefs", [])):
+                continue
+            for v in f.get("_vardefs", []):
+                if v["name"] not in have:
+                    target.append(dict(v))
+            if scope is not None:
+                scope |= keys
+            return f["name"]
+        return None
+
     def new_fragment(self, on: str, depth: int, allow_inline: bool, scope: Optional[set] = None, mixin: bool = False) -> Optional[str]:
+        self._last_new = None
+        if self.f["reuse_fragment"] > 0 and self.p("reuse_fragment"):
+            fn = self.reuse_fragment(on, allow_inline, scope, mixin)
+            if fn:
+                return fn
         self._frag_n += 1
         name = self.rng.choice(["Frag", "Part", "Bits", "fields"]) + self.rng.choice(["A", "B", "C", "Of", ""]) + str(self._frag_n)
         outer = self._in_fragment
@@ -158,7 +216,13 @@ class OpsGen:
             self._no_abstract -= 1 if mixin else 0
         if not sel:
             return None
-        self.fragments.append({"name": name, "on": on, "sel": sel, "mixins": []})
+        frag = {"name": name, "on": on, "sel": sel, "mixins": []}
+        if self.f["reuse_fragment"] > 0:
+            uv = used_variables(sel, {f["name"]: f for f in self.fragments})
+            frag["_flavour"] = (allow_inline, mixin)
+            frag["_vardefs"] = [dict(v) for v in self.vars if v["name"] in uv]
+        self.fragments.append(frag)
+        self._last_new = name
         return name
 
     def gen_selection_set(self, type_name: str, depth: int, in_fragment: bool = False, allow_inline: bool = True,
@@ -196,10 +260,10 @@ class OpsGen:
                 # a fragment on the position's own abstract type that itself contains inline fragments: unpacked
                 fn = self.new_fragment(type_name, depth, allow_inline=True, scope=scope)
                 if fn:
-                    body = self.fragments[-1]["sel"]
+                    body = next(f for f in self.fragments if f["name"] == fn)["sel"]
                     if any(x["k"] == "inline" for x in body) and not any(x["k"] == "spread" for x in body):
                         sel.append({"k": "spread", "name": fn, "dirs": self.directives("dir_frag")})
-                    else:
+                    elif self._last_new == fn:
                         self.fragments.pop()
             if self.p("inline_iface") or self.p("spread_iface"):
                 others = [t["name"] for t in self.schema["types"] if t["kind"] == "interface" and t["name"] != type_name]
@@ -226,6 +290,19 @@ class OpsGen:
                     fn = self.new_fragment(self.rng.choice(ifaces), 0, allow_inline=False, scope=scope)
                     if fn:
                         sel.append({"k": "spread", "name": fn, "dirs": self.directives("dir_frag")})
+            if kind == "object" and allow_inline and self.f["obj_in_abs_inline"] > 0 and self.p("obj_in_abs_inline"):
+                ifaces = self.tm[type_name]["interfaces"]
+                if ifaces:
+                    # `... on Interface { ...FragOnThisObject }` / `... on Interface { ... on ThisObject { .. } }`: below the
+                    # inline fragment the generator resolves with the interface as root and drops the object-typed part
+                    if self.rng.random() < 0.5:
+                        fn = self.new_fragment(type_name, 0, allow_inline=False, scope=scope, mixin=True)
+                        inner = [{"k": "spread", "name": fn, "dirs": []}] if fn else []
+                    else:
+                        sub = self.leaf_fields(type_name, set(used), 0, at_least_one=True)
+                        inner = [{"k": "inline", "on": type_name, "dirs": [], "sel": sub}] if sub else []
+                    if inner:
+                        sel.append({"k": "inline", "on": self.rng.choice(ifaces), "dirs": [], "sel": inner})
             if self.p("inline_notype") and allow_inline:
                 sub = self.leaf_fields(type_name, used, 0, at_least_one=False)
                 if sub:
